@@ -125,11 +125,11 @@ Definition spec_ok (c : case) : bool :=
             unparsable or out of order) *)
       list_eqb N.eqb (map b_id saved) (c_saved c) &&
       (* 2. exactness w.r.t. the minimum timestamp (constant-min runs): only the last saved
-            block may be below min, and it is iff the backfill completed *)
+            block may be below min or be genesis, and it is iff the backfill completed *)
       (if const_min c then
          all_but_last_ge (the_min c) saved &&
          match rev saved with
-         | z :: _ => Bool.eqb (b_ts z <? the_min c) (c_closed c) || ((b_height z =? 0)%N && negb (c_closed c))
+         | z :: _ => Bool.eqb ((b_ts z <? the_min c) || (b_height z =? 0)%N) (c_closed c)
          | [] => true
          end
        else true) &&
